@@ -184,6 +184,16 @@ pub trait Decoder: Read {
             res is Ok ==> final(self).rest().len() < old(self).rest().len(),
             Self::v1() ==> read_post(old(self).rest(), final(self).rest(), res, dec_u32(old(self).rest())),
     ;
+
+    /// `read_any`: the contract proved for `Any::decode` (units/dec_comp/any.rs), which both real bodies call
+    fn read_any(&mut self) -> (res: Result<Any, Error>)
+        requires
+            old(self).wf(),
+        ensures
+            final(self).wf(),
+            suffix_of(old(self).rest(), final(self).rest()),
+            res is Ok ==> final(self).rest().len() < old(self).rest().len(),
+    ;
 }
 
 /// what a successful / failed read leaves behind, in the shape the loops use it
@@ -247,6 +257,8 @@ impl<'a> Decoder for DecoderV1<'a> {
     @start
         proof { lemma_dec_u32_bounded(self.rest()); lemma_suffix_skip(self.rest(), 0); if dec_u32(self.rest()) is Some { lemma_suffix_skip(self.rest(), dec_u32(self.rest())->Some_0.1); } }
     @*/
+
+    /*@extract yrs/src/updates/decoder.rs | impl<'a> Decoder for DecoderV1<'a> | fn read_any | label=decoder_v1_read_any @*/
 }
 
 // ---------------------------------------------------------------------------------------------
@@ -290,6 +302,8 @@ impl<'a> Decoder for DecoderV2<'a> {
     @start
         proof { lemma_dec_u32_bounded(self.rest()); lemma_suffix_skip(self.rest(), 0); if dec_u32(self.rest()) is Some { lemma_suffix_skip(self.rest(), dec_u32(self.rest())->Some_0.1); } }
     @*/
+
+    /*@extract yrs/src/updates/decoder.rs | impl<'a> Decoder for DecoderV2<'a> | fn read_any | label=decoder_v2_read_any @*/
 }
 
 // ---------------------------------------------------------------------------------------------
